@@ -31,6 +31,7 @@ from placement.handlers import allocation
 from placement.handlers import inventory
 from placement.handlers import util as data_util
 from placement import microversion
+from placement.objects import consumer as consumer_obj
 from placement.objects import reshaper
 from placement.objects import resource_provider as rp_obj
 from placement.policies import reshaper as policies
@@ -117,6 +118,10 @@ def reshape(req):
         data_util.update_consumers(consumers.values(), requested_attrs)
 
         reshaper.reshape(ctx, inventory_by_rp, allocation_objects)
+        # A consumer auto-created for an entry that carried no allocations
+        # holds nothing: do not keep its record.
+        consumer_obj.delete_consumers_if_no_allocations(
+            ctx, [consumer.uuid for consumer in new_consumers_created])
 
     def _create_allocations():
         try:
